@@ -327,20 +327,12 @@ Proof.
 Qed.
 
 (* ---- comments ---- *)
-Lemma simple_comment_line_not_ws l : simple_comment_line l = true -> l <> [] -> all_fluent_ws l = false.
-Proof.
-  unfold simple_comment_line. intros H Hne. apply andb_prop in H as [H Hex]. apply andb_prop in H as [Hwf _].
-  destruct l as [|b0 l0]; [congruence|]. set (l := b0 :: l0) in *.
-  apply existsb_exists in Hex as [b [Hb Hb32]]. apply negb_true_iff in Hb32.
-  unfold wf_comment_line in Hwf. rewrite forallb_forall in Hwf. pose proof (Hwf b Hb) as Hb'.
-  apply negb_true_iff, orb_false_elim in Hb' as [H10 H13].
-  unfold all_fluent_ws. apply not_true_is_false. intros Hall. rewrite forallb_forall in Hall.
-  specialize (Hall b Hb). rewrite Hb32, H13, H10 in Hall. discriminate.
-Qed.
+(* the serializer writes a line of fluent whitespace only as an empty line *)
+Definition nz_line (l : bytes) : bytes := if all_fluent_ws l then [] else l.
 
 Lemma simple_comment_line_last l : simple_comment_line l = true -> l <> [] -> N.eqb (last l 0%N) 13 = false.
 Proof.
-  unfold simple_comment_line. intros H Hne. apply andb_prop in H as [H _]. apply andb_prop in H as [Hwf _].
+  unfold simple_comment_line. intros H Hne. apply andb_prop in H as [Hwf _].
   unfold wf_comment_line in Hwf. rewrite forallb_forall in Hwf. pose proof (Hwf _ (last_in l 0%N Hne)) as Hb.
   apply negb_true_iff, orb_false_elim in Hb as [_ H13]. exact H13.
 Qed.
@@ -348,19 +340,19 @@ Qed.
 Definition hash_prefix (P : bytes) : Prop := P = [35%N] \/ P = [35; 35]%N \/ P = [35; 35; 35]%N.
 
 Lemma comment_line_text_simple P l : hash_prefix P -> simple_comment_line l = true ->
-  comment_line_text P l = P ++ sl l ++ [10%N].
+  comment_line_text P l = P ++ sl (nz_line l) ++ [10%N].
 Proof.
-  intros HP Hl. unfold comment_line_text. destruct l as [|b0 l0].
-  - cbn [all_fluent_ws forallb sl app]. rewrite !app_nil_r.
-    destruct HP as [-> | [-> | ->]]; reflexivity.
-  - rewrite (simple_comment_line_not_ws _ Hl ltac:(discriminate)). cbn [sl]. rewrite <- app_assoc. do 2 f_equal.
+  intros HP Hl. unfold comment_line_text, nz_line. destruct (all_fluent_ws l) eqn:Ews.
+  - cbn [sl app]. rewrite !app_nil_r. destruct HP as [-> | [-> | ->]]; reflexivity.
+  - destruct l as [|b0 l0]; [discriminate Ews|]. cbn [sl]. rewrite <- app_assoc. do 2 f_equal.
     unfold line_end_after. set (l := b0 :: l0) in *.
     replace (P ++ 32%N :: l) with ((P ++ [32%N]) ++ l) by (rewrite <- app_assoc; reflexivity).
     rewrite rev_app_distr, (rev_last l ltac:(discriminate)). cbn [app].
     rewrite (simple_comment_line_last l Hl ltac:(discriminate)). reflexivity.
 Qed.
 
-Definition comment_text (P : bytes) (ls : list bytes) : bytes := concat (map (fun l => P ++ sl l ++ [10%N]) ls).
+Definition comment_text (P : bytes) (ls : list bytes) : bytes :=
+  concat (map (fun l => P ++ sl (nz_line l) ++ [10%N]) ls).
 
 Lemma comment_lines_text_simple P ls : hash_prefix P -> forallb simple_comment_line ls = true ->
   concat (map (comment_line_text P) ls) = comment_text P ls.
@@ -368,6 +360,21 @@ Proof.
   intros HP. induction ls as [|l r IH]; intros Hs; [reflexivity|].
   cbn [forallb] in Hs. apply andb_prop in Hs as [Hl Hr]. unfold comment_text in *. cbn [map concat].
   rewrite (comment_line_text_simple P l HP Hl), (IH Hr). reflexivity.
+Qed.
+
+(* the lines of a comment, from a line start at level 0 *)
+Lemma serialize_simple_comment_lines ls P x :
+  hash_prefix P -> forallb simple_comment_line ls = true -> at_line_start x -> indent_level x = 0 ->
+  serialize_comment_lines ls P x = Done (Writer (rev (comment_text P ls) ++ rbuf x) 0) /\
+  at_line_start (Writer (rev (comment_text P ls) ++ rbuf x) 0).
+Proof.
+  intros HP Hlines Hs Hl.
+  destruct (serialize_comment_lines_spec ls P x Hs Hl) as (x2 & E2 & Hs2 & Hl2 & W2).
+  unfold written in W2. rewrite (comment_lines_text_simple P ls HP Hlines) in W2.
+  apply (f_equal (@rev N)) in W2. rewrite rev_involutive, rev_app_distr, rev_involutive in W2.
+  assert (Ex : x2 = Writer (rev (comment_text P ls) ++ rbuf x) 0).
+  { destruct x2 as [r2 l2]. cbn [rbuf indent_level] in *. subst. reflexivity. }
+  rewrite <- Ex. split; [exact E2 | exact Hs2].
 Qed.
 
 Definition lead (wrote : bool) : bytes := if wrote then [10%N] else [].
@@ -388,15 +395,13 @@ Proof.
     - exists x. split; [reflexivity | split; [exact Hs | split; [exact Hl | reflexivity]]]. }
   destruct H1 as (x1 & E1 & Hs1 & Hl1 & Hr1).
   unfold wseq at 1. rewrite E1. cbn [obind].
-  destruct (serialize_comment_lines_spec ls P x1 Hs1 Hl1) as (x2 & E2 & Hs2 & Hl2 & W2).
+  destruct (serialize_simple_comment_lines ls P x1 HP Hlines Hs1 Hl1) as [E2 Hs2].
   unfold wseq, serialize_comment. cbn [content]. rewrite E2. cbn [obind].
-  rewrite (newline_plain x2 (at_line_start_no_cr _ Hs2)). rewrite Hl2. do 2 f_equal.
-  unfold written in W2. rewrite (comment_lines_text_simple P ls HP Hlines) in W2.
-  apply (f_equal (@rev N)) in W2. rewrite rev_involutive, rev_app_distr, rev_involutive in W2.
-  rewrite W2, Hr1. rewrite !rev_app_distr. cbn [rev app]. rewrite <- !app_assoc. reflexivity.
+  rewrite (newline_plain _ (at_line_start_no_cr _ Hs2)). cbn [rbuf indent_level]. do 2 f_equal.
+  rewrite Hr1. rewrite !rev_app_distr. cbn [rev app]. rewrite <- !app_assoc. reflexivity.
 Qed.
 
-Definition simple_entry_text (wrote : bool) (e : entry) : bytes :=
+Definition plain_entry_text (wrote : bool) (e : entry) : bytes :=
   match e with
   | Message id (Some (Pattern els)) attrs _ =>
       id ++ [32; 61; 32]%N ++ line_text els ++ attrs_text attrs ++ [10%N]
@@ -409,13 +414,13 @@ Definition simple_entry_text (wrote : bool) (e : entry) : bytes :=
   | _ => []
   end.
 
-Lemma serialize_simple_entry with_junk e st :
-  simple_entry e = true -> at_line_start (w st) -> indent_level (w st) = 0 ->
+Lemma serialize_plain_entry with_junk e st :
+  plain_entry e = true -> at_line_start (w st) -> indent_level (w st) = 0 ->
   serialize_entry with_junk st e =
-  Done (SState (Writer (rev (simple_entry_text (wrote_non_junk_entry st) e) ++ rbuf (w st)) 0) true).
+  Done (SState (Writer (rev (plain_entry_text (wrote_non_junk_entry st) e) ++ rbuf (w st)) 0) true).
 Proof.
   intros He Hs Hl.
-  destruct e as [id [p|] attrs [|]|id p attrs [|]|[ls]|[ls]|[ls]|]; try discriminate; cbn [simple_entry] in He.
+  destruct e as [id [p|] attrs [|]|id p attrs [|]|[ls]|[ls]|[ls]|]; try discriminate; cbn [plain_entry] in He.
   4-6: (unfold serialize_entry; cbn [is_junk negb orb]; rewrite orb_true_r;
         rewrite serialize_simple_free_comment by (try exact He; try assumption; unfold hash_prefix; auto);
         reflexivity).
@@ -436,7 +441,7 @@ Proof.
       destruct (serialize_simple_attributes attrs x Hattrs (mid_line_pattern els _ 0 Hv) eq_refl) as [Ea [_ Hm13]] end.
     unfold wseq. rewrite Ea. cbn [obind].
     rewrite newline_plain by exact Hm13.
-    cbn [obind rbuf indent_level simple_entry_text]. do 3 f_equal.
+    cbn [obind rbuf indent_level plain_entry_text]. do 3 f_equal.
     rewrite !rev_app_distr. cbn [rev app]. rewrite <- !app_assoc. reflexivity.
   - unfold serialize_entry. cbn [is_junk negb orb]. rewrite orb_true_r.
     unfold serialize_message, serialize_opt_comment.
@@ -450,7 +455,7 @@ Proof.
       destruct (serialize_simple_attributes attrs x Hattrs (conj eq_refl eq_refl) eq_refl) as [Ea [_ Hm13]] end.
     unfold wseq. rewrite Ea. cbn [obind].
     rewrite newline_plain by exact Hm13.
-    cbn [obind rbuf indent_level simple_entry_text]. do 3 f_equal.
+    cbn [obind rbuf indent_level plain_entry_text]. do 3 f_equal.
     rewrite !rev_app_distr. cbn [rev app]. rewrite <- !app_assoc. reflexivity.
   - destruct (simple_pattern_spec p Hp) as [els [-> Hv]].
     unfold serialize_entry. cbn [is_junk negb orb]. rewrite orb_true_r.
@@ -470,8 +475,50 @@ Proof.
       destruct (serialize_simple_attributes attrs x Hattrs (mid_line_pattern els _ 0 Hv) eq_refl) as [Ea [_ Hm13]] end.
     unfold wseq. rewrite Ea. cbn [obind].
     rewrite newline_plain by exact Hm13.
-    cbn [obind rbuf indent_level simple_entry_text]. do 3 f_equal.
+    cbn [obind rbuf indent_level plain_entry_text]. do 3 f_equal.
     cbn [rev]. rewrite !rev_app_distr. cbn [rev app]. rewrite <- !app_assoc. reflexivity.
+Qed.
+
+(* ---- entries with an attached comment ---- *)
+Definition attached_text (e : entry) : bytes :=
+  match entry_comment e with Some c => comment_text [35%N] (content c) | None => [] end.
+Definition simple_entry_text (wrote : bool) (e : entry) : bytes := attached_text e ++ plain_entry_text wrote e.
+
+Lemma serialize_attached with_junk st e0 ls :
+  is_message_or_term e0 = true -> entry_comment e0 = None ->
+  serialize_entry with_junk st (attach e0 (Comment ls)) =
+  let* x1 := serialize_comment_lines ls [35%N] (w st) in
+  serialize_entry with_junk (SState x1 (wrote_non_junk_entry st)) e0.
+Proof.
+  intros Hmt Hc. destruct e0 as [id v a cm|id v a cm| | | |]; try discriminate Hmt; cbn [entry_comment] in Hc; subst cm;
+    cbn [attach]; unfold serialize_entry; cbn [is_junk negb orb w wrote_non_junk_entry].
+  - unfold serialize_message, serialize_opt_comment, serialize_comment. cbn [content].
+    unfold wseq at 1. destruct (serialize_comment_lines ls [35%N] (w st)); reflexivity.
+  - unfold serialize_term, serialize_opt_comment, serialize_comment. cbn [content].
+    unfold wseq at 1. destruct (serialize_comment_lines ls [35%N] (w st)); reflexivity.
+Qed.
+
+Lemma plain_entry_text_attach wrote e0 c : is_message_or_term e0 = true ->
+  plain_entry_text wrote (attach e0 c) = plain_entry_text wrote e0.
+Proof. destruct e0; try discriminate; reflexivity. Qed.
+
+Lemma serialize_simple_entry with_junk e st :
+  simple_entry e = true -> at_line_start (w st) -> indent_level (w st) = 0 ->
+  serialize_entry with_junk st e =
+  Done (SState (Writer (rev (simple_entry_text (wrote_non_junk_entry st) e) ++ rbuf (w st)) 0) true).
+Proof.
+  intros He Hs Hl. unfold simple_entry_text, attached_text.
+  destruct (simple_entry_cases e He) as [[Hc Hp] | (e0 & ls & -> & Hmt & Hc & Hp & Hcm)].
+  - rewrite Hc. cbn [app]. apply (serialize_plain_entry with_junk e st Hp Hs Hl).
+  - rewrite (serialize_attached with_junk st e0 ls Hmt Hc).
+    destruct (simple_comment_spec ls Hcm) as [Hlines _].
+    destruct (serialize_simple_comment_lines ls [35%N] (w st) (or_introl eq_refl) Hlines Hs Hl) as [E1 Hs1].
+    rewrite E1. cbn [obind].
+    rewrite (serialize_plain_entry with_junk e0 (SState (Writer (rev (comment_text [35%N] ls) ++ rbuf (w st)) 0) (wrote_non_junk_entry st))
+               Hp Hs1 eq_refl). cbn [w rbuf wrote_non_junk_entry].
+    replace (entry_comment (attach e0 (Comment ls))) with (Some (Comment ls))
+      by (destruct e0; try discriminate Hmt; reflexivity).
+    cbn [content]. rewrite (plain_entry_text_attach _ e0 _ Hmt). rewrite rev_app_distr, <- app_assoc. reflexivity.
 Qed.
 
 Fixpoint simple_text_from (wrote : bool) (t : resource) : bytes :=
@@ -481,16 +528,25 @@ Fixpoint simple_text_from (wrote : bool) (t : resource) : bytes :=
   end.
 Definition simple_resource_text (t : resource) : bytes := simple_text_from false t.
 
+Lemma plain_entry_text_ends_lf wrote e : plain_entry e = true -> exists l, plain_entry_text wrote e = l ++ [10%N].
+Proof.
+  destruct e as [id [p|] attrs [|]|id p attrs [|]|c|c|c|]; try discriminate; cbn [plain_entry]; intros He.
+  4-6: (cbn [plain_entry_text]; eexists; rewrite app_assoc; reflexivity).
+  all: apply andb_prop in He as [He _]; apply andb_prop in He as [_ Hp].
+  - destruct (simple_pattern_spec p Hp) as [els [-> Hv]]. cbn [plain_entry_text].
+    exists (id ++ [32; 61; 32]%N ++ line_text els ++ attrs_text attrs). norm_app. reflexivity.
+  - cbn [plain_entry_text]. exists (id ++ [32; 61]%N ++ attrs_text attrs). norm_app. reflexivity.
+  - destruct (simple_pattern_spec p Hp) as [els [-> Hv]]. cbn [plain_entry_text].
+    exists (45%N :: id ++ [32; 61; 32]%N ++ line_text els ++ attrs_text attrs). norm_app. reflexivity.
+Qed.
+
 Lemma simple_entry_text_ends_lf wrote e : simple_entry e = true -> exists l, simple_entry_text wrote e = l ++ [10%N].
 Proof.
-  destruct e as [id [p|] attrs [|]|id p attrs [|]|c|c|c|]; try discriminate; cbn [simple_entry]; intros He.
-  4-6: (cbn [simple_entry_text]; eexists; rewrite app_assoc; reflexivity).
-  all: apply andb_prop in He as [He _]; apply andb_prop in He as [_ Hp].
-  - destruct (simple_pattern_spec p Hp) as [els [-> Hv]]. cbn [simple_entry_text].
-    exists (id ++ [32; 61; 32]%N ++ line_text els ++ attrs_text attrs). norm_app. reflexivity.
-  - cbn [simple_entry_text]. exists (id ++ [32; 61]%N ++ attrs_text attrs). norm_app. reflexivity.
-  - destruct (simple_pattern_spec p Hp) as [els [-> Hv]]. cbn [simple_entry_text].
-    exists (45%N :: id ++ [32; 61; 32]%N ++ line_text els ++ attrs_text attrs). norm_app. reflexivity.
+  intros He. unfold simple_entry_text.
+  destruct (simple_entry_cases e He) as [[Hc Hp] | (e0 & ls & -> & Hmt & Hc & Hp & Hcm)].
+  - destruct (plain_entry_text_ends_lf wrote e Hp) as [l El]. exists (attached_text e ++ l). rewrite El, app_assoc. reflexivity.
+  - rewrite (plain_entry_text_attach _ e0 _ Hmt). destruct (plain_entry_text_ends_lf wrote e0 Hp) as [l El].
+    eexists. rewrite El, app_assoc. reflexivity.
 Qed.
 
 Lemma serialize_simple_resource with_junk t : forall st,
@@ -520,7 +576,78 @@ Proof.
   rewrite E. cbn [obind w rbuf wrote_non_junk_entry]. rewrite app_nil_r, rev_involutive. reflexivity.
 Qed.
 
-(* the serializer's text is one of the layouts of the tree *)
+(* ---- the tree the serializer's text stands for: whitespace-only comment lines have become empty ---- *)
+Definition nz_comment (c : comment) : comment := Comment (map nz_line (content c)).
+Definition nz_entry (e : entry) : entry :=
+  match e with
+  | Message id v a c => Message id v a (option_map nz_comment c)
+  | Term id v a c => Term id v a (option_map nz_comment c)
+  | CommentEntry c => CommentEntry (nz_comment c)
+  | GroupComment c => GroupComment (nz_comment c)
+  | ResourceComment c => ResourceComment (nz_comment c)
+  | Junk j => Junk j
+  end.
+Definition nz_resource (t : resource) : resource := map nz_entry t.
+
+Lemma nz_line_idem l : nz_line (nz_line l) = nz_line l.
+Proof. unfold nz_line. destruct (all_fluent_ws l) eqn:E; [reflexivity | rewrite E; reflexivity]. Qed.
+
+Lemma nz_line_simple l : simple_comment_line l = true -> simple_comment_line (nz_line l) = true.
+Proof. unfold nz_line. destruct (all_fluent_ws l); [reflexivity | auto]. Qed.
+
+Lemma nonspace_not_ws l : wf_comment_line l = true -> existsb (fun b => negb (N.eqb b 32)) l = true -> all_fluent_ws l = false.
+Proof.
+  intros Hwf Hex. apply existsb_exists in Hex as [b [Hb Hb32]]. apply negb_true_iff in Hb32.
+  unfold wf_comment_line in Hwf. rewrite forallb_forall in Hwf. pose proof (Hwf b Hb) as Hb'.
+  apply negb_true_iff, orb_false_elim in Hb' as [H10 H13].
+  unfold all_fluent_ws. apply not_true_is_false. intros Hall. rewrite forallb_forall in Hall.
+  specialize (Hall b Hb). rewrite Hb32, H13, H10 in Hall. discriminate.
+Qed.
+
+Lemma last_map {X Y} (f : X -> Y) (l : list X) d : l <> [] -> last (map f l) (f d) = f (last l d).
+Proof.
+  induction l as [|a l IH]; [congruence|]. intros _. destruct l as [|b l]; [reflexivity|].
+  change (last (map f (a :: b :: l)) (f d)) with (last (map f (b :: l)) (f d)). apply IH. discriminate.
+Qed.
+
+Lemma last_in_list {X} (l : list X) d : l <> [] -> In (last l d) l.
+Proof.
+  induction l as [|a l IH]; [congruence|]. intros _. destruct l as [|b l]; [left; reflexivity|].
+  right. apply IH. discriminate.
+Qed.
+
+Lemma nz_comment_simple ls : simple_comment (Comment ls) = true -> simple_comment (nz_comment (Comment ls)) = true.
+Proof.
+  unfold simple_comment, nz_comment. cbn [content]. intros H.
+  assert (Hne : ls <> []) by (destruct ls; [discriminate H | discriminate]).
+  assert (H' : forallb simple_comment_line ls && existsb (fun b => negb (N.eqb b 32)) (last ls []) = true)
+    by (destruct ls; [congruence | exact H]).
+  apply andb_prop in H' as [H1 H2].
+  destruct (map nz_line ls) as [|m ms] eqn:Em; [destruct ls; [congruence | discriminate Em]|].
+  rewrite <- Em. apply andb_true_intro. split.
+  - rewrite forallb_forall in *. intros x Hx. apply in_map_iff in Hx as [y [<- Hy]]. apply nz_line_simple, H1, Hy.
+  - change (@nil N) with (nz_line []) at 1. rewrite (last_map nz_line ls [] Hne).
+    assert (Hl : simple_comment_line (last ls []) = true).
+    { rewrite forallb_forall in H1. apply H1, last_in_list, Hne. }
+    unfold nz_line. apply andb_prop in Hl as [Hwf _]. rewrite (nonspace_not_ws _ Hwf H2). exact H2.
+Qed.
+
+Lemma nz_entry_simple e : simple_entry e = true -> simple_entry (nz_entry e) = true.
+Proof.
+  unfold simple_entry. intros H. apply andb_prop in H as [Hp Hc].
+  destruct e as [id v a [[ls]|]|id v a [[ls]|]|[ls]|[ls]|[ls]|j];
+    cbn [nz_entry strip_comment entry_comment option_map plain_entry] in *;
+    rewrite ?Hp; cbn [andb]; try reflexivity; try (apply nz_comment_simple; assumption).
+  all: rewrite (nz_comment_simple ls Hp); reflexivity.
+Qed.
+
+Lemma nz_resource_simple t : simple_resource t = true -> simple_resource (nz_resource t) = true.
+Proof.
+  unfold simple_resource, nz_resource. rewrite !forallb_forall. intros H e He.
+  apply in_map_iff in He as [e0 [<- He0]]. apply nz_entry_simple, H, He0.
+Qed.
+
+(* the serializer's text is one of the layouts of that tree *)
 Lemma line_text_layout els : forall prev, simple_elements els prev = true -> line_layout els (line_text els).
 Proof.
   induction els as [|el r IH]; intros prev Hs; [constructor|].
@@ -547,13 +674,14 @@ Proof.
   apply simple_pattern_elements, Hp.
 Qed.
 
-Lemma comment_text_layout P ls : ls <> [] -> exists C, comment_text P ls = C ++ lf /\ comment_layout P ls C.
+Lemma comment_text_layout P ls : ls <> [] ->
+  exists C, comment_text P ls = C ++ lf /\ comment_layout P (map nz_line ls) C.
 Proof.
   induction ls as [|l r IH]; [congruence|]. intros _. unfold comment_text in *. cbn [map concat].
   destruct r as [|l2 r'].
-  - exists (P ++ sl l). split; [cbn [map concat]; rewrite app_nil_r, <- !app_assoc; reflexivity | constructor].
+  - exists (P ++ sl (nz_line l)). split; [cbn [map concat]; rewrite app_nil_r, <- !app_assoc; reflexivity | constructor].
   - destruct (IH ltac:(discriminate)) as [C [EC HC]]. rewrite EC.
-    exists (P ++ sl l ++ lf ++ C). split; [rewrite <- !app_assoc; reflexivity|].
+    exists (P ++ sl (nz_line l) ++ lf ++ C). split; [rewrite <- !app_assoc; reflexivity|].
     constructor; [left; reflexivity | discriminate | exact HC].
 Qed.
 
@@ -562,27 +690,54 @@ Qed.
 Definition trail (e : entry) : bytes := if is_comment_entry e then [10%N] else [].
 Definition lead_of (wrote : bool) (e : entry) : bytes := if is_comment_entry e then lead wrote else [].
 
-Lemma simple_entry_text_layout wrote e : simple_entry e = true ->
-  exists E, simple_entry_text wrote e = lead_of wrote e ++ E ++ lf ++ trail e /\ entry_layout e E.
+Lemma plain_entry_text_layout wrote e : plain_entry e = true ->
+  exists E, plain_entry_text wrote e = lead_of wrote e ++ E ++ lf ++ trail e /\ plain_layout (nz_entry e) E.
 Proof.
-  destruct e as [id [p|] attrs [|]|id p attrs [|]|[ls]|[ls]|[ls]|]; try discriminate; cbn [simple_entry]; intros He.
-  4-6: (apply simple_comment_ne in He; cbn [content] in He; cbn [simple_entry_text content lead_of trail is_comment_entry];
+  destruct e as [id [p|] attrs [|]|id p attrs [|]|[ls]|[ls]|[ls]|]; try discriminate; cbn [plain_entry]; intros He.
+  4-6: (apply simple_comment_ne in He; cbn [content] in He;
+        cbn [plain_entry_text content lead_of trail is_comment_entry nz_entry nz_comment];
         match goal with |- context [comment_text ?P ?L] => destruct (comment_text_layout P L He) as [C [EC HC]] end;
         exists C; rewrite EC; split; [rewrite <- !app_assoc; reflexivity | constructor; exact HC]).
   all: apply andb_prop in He as [He Hattrs]; apply andb_prop in He as [_ Hp];
-    cbn [lead_of trail is_comment_entry app]; rewrite ?app_nil_r.
-  - destruct (simple_pattern_spec p Hp) as [els [-> Hv]]. cbn [simple_entry_text].
+    cbn [lead_of trail is_comment_entry app nz_entry option_map]; rewrite ?app_nil_r.
+  - destruct (simple_pattern_spec p Hp) as [els [-> Hv]]. cbn [plain_entry_text].
     exists (id ++ sp 1 ++ 61%N :: (sp 1 ++ line_text els) ++ attrs_text attrs). split.
     + unfold lf. cbn [sp repeat]. norm_app. reflexivity.
     + apply el_message; [apply vl_inline, (line_text_layout els false), simple_pattern_elements, Hv | apply attrs_text_layout, Hattrs].
-  - cbn [simple_entry_text].
+  - cbn [plain_entry_text].
     exists (id ++ sp 1 ++ 61%N :: attrs_text attrs). split.
     + unfold lf. cbn [sp repeat]. norm_app. reflexivity.
     + apply el_message_novalue; [|apply attrs_text_layout, Hattrs]. destruct attrs; [discriminate Hp | discriminate].
-  - destruct (simple_pattern_spec p Hp) as [els [-> Hv]]. cbn [simple_entry_text].
+  - destruct (simple_pattern_spec p Hp) as [els [-> Hv]]. cbn [plain_entry_text].
     exists (45%N :: id ++ sp 1 ++ 61%N :: (sp 1 ++ line_text els) ++ attrs_text attrs). split.
     + unfold lf. cbn [sp repeat]. norm_app. reflexivity.
     + apply el_term; [apply vl_inline, (line_text_layout els false), simple_pattern_elements, Hv | apply attrs_text_layout, Hattrs].
+Qed.
+
+Lemma simple_entry_text_layout wrote e : simple_entry e = true ->
+  exists E, simple_entry_text wrote e = lead_of wrote e ++ E ++ lf ++ trail e /\ entry_layout (nz_entry e) E.
+Proof.
+  intros He. unfold simple_entry_text, attached_text.
+  destruct (simple_entry_cases e He) as [[Hc Hp] | (e0 & ls & -> & Hmt & Hc & Hp & Hcm)].
+  - rewrite Hc. cbn [app]. destruct (plain_entry_text_layout wrote e Hp) as [E [EE HE]].
+    exists E. split; [exact EE|]. apply el_plain; [|exact HE].
+    destruct e as [? ? ? cm|? ? ? cm| | | |]; cbn [entry_comment] in Hc; try subst cm; reflexivity.
+  - replace (entry_comment (attach e0 (Comment ls))) with (Some (Comment ls))
+      by (destruct e0; try discriminate Hmt; reflexivity).
+    cbn [content]. rewrite (plain_entry_text_attach _ e0 _ Hmt).
+    destruct (plain_entry_text_layout wrote e0 Hp) as [E [EE HE]]. rewrite EE.
+    pose proof (simple_comment_ne _ Hcm) as Hne. cbn [content] in Hne.
+    destruct (comment_text_layout [35%N] ls Hne) as [C [EC HC]]. rewrite EC.
+    assert (Hnz0 : nz_entry e0 = e0).
+    { destruct e0 as [? ? ? cm|? ? ? cm| | | |]; try discriminate Hmt; cbn [entry_comment] in Hc; subst cm; reflexivity. }
+    assert (Hl : lead_of wrote (attach e0 (Comment ls)) = [] /\ trail (attach e0 (Comment ls)) = [] /\
+                 lead_of wrote e0 = [] /\ trail e0 = []).
+    { destruct e0; try discriminate Hmt; repeat split; reflexivity. }
+    destruct Hl as (-> & -> & -> & ->). cbn [app]. rewrite !app_nil_r.
+    exists (C ++ lf ++ E). split; [rewrite <- !app_assoc; reflexivity|].
+    replace (nz_entry (attach e0 (Comment ls))) with (attach e0 (Comment (map nz_line ls)))
+      by (destruct e0; try discriminate Hmt; reflexivity).
+    rewrite Hnz0 in HE. apply el_attached; try assumption. left; reflexivity.
 Qed.
 
 Definition lead_of_list (wrote : bool) (t : resource) : bytes :=
@@ -594,30 +749,29 @@ Lemma blank_two : blank_lines_of 2 [10; 10]%N.
 Proof. apply (bl_cons 0 lf 1 [10%N] (or_introl eq_refl) blank_one). Qed.
 
 Lemma simple_text_from_layout t : forall wrote, simple_resource t = true ->
-  exists S, simple_text_from wrote t = lead_of_list wrote t ++ S /\ entries_layout t S.
+  exists S, simple_text_from wrote t = lead_of_list wrote t ++ S /\ entries_layout (nz_resource t) S.
 Proof.
   induction t as [|e r IH]; intros wrote Ht; [exists []; split; [reflexivity | constructor]|].
   cbn [simple_resource forallb] in Ht. apply andb_prop in Ht as [He Hr].
   destruct (simple_entry_text_layout wrote e He) as [E [EE HE]].
   destruct (IH true Hr) as [S' [ES' HS']].
-  cbn [simple_text_from lead_of_list]. rewrite EE, ES'.
+  cbn [simple_text_from lead_of_list nz_resource map]. rewrite EE, ES'.
   exists (E ++ lf ++ (trail e ++ lead_of_list true r) ++ S'). split; [rewrite <- !app_assoc; reflexivity|].
   constructor; [exact HE|].
   assert (Hbl : exists c, blank_lines_of c (trail e ++ lead_of_list true r) /\
-                          match r with e2 :: _ => min_blank_between e e2 <= c | [] => True end).
+                          match map nz_entry r with e2 :: _ => min_blank_between (nz_entry e) e2 <= c | [] => True end).
   { unfold trail, lead_of_list, lead_of, lead, min_blank_between.
     destruct r as [|e2 r2].
     - destruct (is_comment_entry e); eexists; (split; [|exact Logic.I]); [apply blank_one | constructor].
-    - cbn [forallb] in Hr. apply andb_prop in Hr as [He2 _].
-      destruct e as [? [?|] ? [|]|? ? ? [|]|?|?|?|]; try discriminate He;
-        destruct e2 as [? [?|] ? [|]|? ? ? [|]|?|?|?|]; try discriminate He2;
-        cbn [is_comment_entry comment_level is_message_or_term Nat.eqb andb negb app];
+    - destruct e as [? ? ? ?|? ? ? ?|?|?|?|?]; try discriminate He;
+        destruct e2 as [? ? ? ?|? ? ? ?|?|?|?|?];
+        cbn [map nz_entry is_comment_entry comment_level is_message_or_term Nat.eqb andb negb app];
         eexists; (split; [first [apply blank_two | apply blank_one | constructor] | lia]). }
   destruct Hbl as [c [Hbl Hmin]].
-  apply (tl_more e r lf c _ S'); [left; reflexivity | exact Hbl | exact HS' | exact Hmin].
+  apply (tl_more (nz_entry e) (map nz_entry r) lf c _ S'); [left; reflexivity | exact Hbl | exact HS' | exact Hmin].
 Qed.
 
-Lemma simple_resource_text_layout t : simple_resource t = true -> entries_layout t (simple_resource_text t).
+Lemma simple_resource_text_layout t : simple_resource t = true -> entries_layout (nz_resource t) (simple_resource_text t).
 Proof.
   intros Ht. destruct (simple_text_from_layout t false Ht) as [S [ES HS]].
   unfold simple_resource_text. rewrite ES.
@@ -626,10 +780,54 @@ Proof.
 Qed.
 
 Theorem parse_serialize_simple with_junk t : simple_resource t = true ->
-  exists s, serialize_with_options with_junk t = Done s /\ parse s = Done (t, []).
+  exists s, serialize_with_options with_junk t = Done s /\ parse s = Done (nz_resource t, []).
 Proof.
   intros Ht. exists (simple_resource_text t). split; [apply serialize_simple, Ht|].
-  apply (parse_layout t _ Ht).
+  apply (parse_layout (nz_resource t) _ (nz_resource_simple t Ht)).
   replace (simple_resource_text t) with ([] ++ simple_resource_text t) by reflexivity.
-  apply (rl 0 [] t); [constructor | apply simple_resource_text_layout, Ht].
+  apply (rl 0 [] (nz_resource t)); [constructor | apply simple_resource_text_layout, Ht].
 Qed.
+
+(* the text depends on the tree only through its normal form, which is a fixed point *)
+Lemma nz_entry_idem e : nz_entry (nz_entry e) = nz_entry e.
+Proof.
+  assert (Hc : forall c, nz_comment (nz_comment c) = nz_comment c).
+  { intros [ls]. unfold nz_comment. cbn [content]. rewrite map_map. f_equal. apply map_ext. intros l. apply nz_line_idem. }
+  destruct e as [? ? ? [c|]|? ? ? [c|]|c|c|c|?]; cbn [nz_entry option_map]; rewrite ?Hc; reflexivity.
+Qed.
+
+Lemma comment_text_nz P ls : comment_text P (map nz_line ls) = comment_text P ls.
+Proof. unfold comment_text. rewrite map_map. f_equal. apply map_ext. intros l. rewrite nz_line_idem. reflexivity. Qed.
+
+Lemma simple_entry_text_nz wrote e : simple_entry_text wrote (nz_entry e) = simple_entry_text wrote e.
+Proof.
+  unfold simple_entry_text, attached_text.
+  destruct e as [id [[els]|] a [[ls]|]|id [els] a [[ls]|]|[ls]|[ls]|[ls]|j];
+    cbn [nz_entry option_map entry_comment nz_comment content plain_entry_text]; rewrite ?comment_text_nz; reflexivity.
+Qed.
+
+Lemma simple_text_from_nz t : forall wrote, simple_text_from wrote (nz_resource t) = simple_text_from wrote t.
+Proof.
+  induction t as [|e r IH]; intros wrote; [reflexivity|].
+  cbn [nz_resource map simple_text_from]. rewrite simple_entry_text_nz. f_equal. apply IH.
+Qed.
+
+Theorem serialize_nz with_junk t : simple_resource t = true ->
+  serialize_with_options with_junk (nz_resource t) = serialize_with_options with_junk t.
+Proof.
+  intros Ht. rewrite (serialize_simple with_junk _ (nz_resource_simple t Ht)), (serialize_simple with_junk t Ht).
+  unfold simple_resource_text. rewrite simple_text_from_nz. reflexivity.
+Qed.
+
+(* the normal form differs from the tree only in what C04's comparison ignores *)
+Lemma norm_nz_entry e : norm_entry (nz_entry e) = norm_entry e.
+Proof.
+  assert (Hc : forall c, norm_comment (nz_comment c) = norm_comment c).
+  { intros [ls]. unfold norm_comment, nz_comment. cbn [content]. rewrite map_map. f_equal. apply map_ext.
+    intros l. unfold nz_line. change (ws_only l) with (all_fluent_ws l).
+    destruct (all_fluent_ws l) eqn:E; [reflexivity|]. change (ws_only l) with (all_fluent_ws l). rewrite E. reflexivity. }
+  destruct e as [? ? ? [c|]|? ? ? [c|]|c|c|c|?]; unfold norm_entry; cbn [nz_entry option_map join_entry]; rewrite ?Hc; reflexivity.
+Qed.
+
+Theorem norm_nz_resource t : norm (nz_resource t) = norm t.
+Proof. unfold norm, nz_resource. rewrite map_map. apply map_ext. intros e. apply norm_nz_entry. Qed.
